@@ -215,7 +215,20 @@ fn main() {
                     fam.push(json!({"family": workload::FAMILY_NAMES[f], "derive": k.derive, "item": k.item}));
                 }
             }
-            let v = json!({"families": fam, "faults": c.faults, "harvested": c.base});
+            // every key also comes in two alternative renderings of the very same tokens
+            let mut rr = rng::Rng::new(seed, 0xA4);
+            let mut with_r = |derive: &str, item: &str, extra: Option<&str>| {
+                let alts: Vec<String> = (0..2).filter_map(|_| workload::rerender(item, &mut rr)).collect();
+                let mut v = json!({"derive": derive, "item": item, "renderings": alts});
+                if let Some(f) = extra {
+                    v["family"] = json!(f);
+                }
+                v
+            };
+            let fam2: Vec<Value> = fam.iter().map(|f| with_r(f["derive"].as_str().unwrap(), f["item"].as_str().unwrap(), f["family"].as_str())).collect();
+            let faults2: Vec<Value> = c.faults.iter().map(|k| with_r(&k.derive, &k.item, None)).collect();
+            let harv2: Vec<Value> = c.base.iter().map(|k| with_r(&k.derive, &k.item, None)).collect();
+            let v = json!({"families": fam2, "faults": faults2, "harvested": harv2});
             println!("{}", serde_json::to_string(&v).unwrap());
             0
         }
